@@ -710,6 +710,7 @@ func catalogue(w *world) []*entry {
 		k.MarshalCompressedASN1()
 		k.Bytes()
 		k.Equal(w.signUser)
+		smx509.MarshalPKCS8PrivateKey(k) // the container that needs the master public key
 	}
 	useEnc := func(k *sm9.EncryptPrivateKey) {
 		ke := k.NewKeyExchange(w.uid, w.uidB, 16, true)
@@ -726,6 +727,7 @@ func catalogue(w *world) []*entry {
 		k.MarshalCompressedASN1()
 		k.Bytes()
 		k.Equal(w.encUser)
+		smx509.MarshalPKCS8PrivateKey(k)
 	}
 	slow(add("sm9.UnmarshalSignPrivateKeyASN1+use", S("sm9.key.signpriv.asn1", "sm9.key.signpriv.asn1c"), func(b []byte) bool {
 		k, err := sm9.UnmarshalSignPrivateKeyASN1(b)
